@@ -601,10 +601,22 @@ pub fn make_session(rng: &mut gen::R, corpus: &[Pos]) -> Vec<Cmd> {
         match rng.gen_range(0..100) {
             0..=34 => {
                 // position: a new one, or (as GUIs do) the previous base with a longer or shorter move list
-                let prev = s.iter().rev().find_map(|c| match c {
-                    Cmd::Position { fen, moves } => Some((fen.clone(), moves.clone())),
-                    _ => None,
-                });
+                // (mostly the latest position command; sometimes an earlier one, so that another base lies in between:
+                // "startpos moves a b", "fen F", "startpos moves a b c")
+                let earlier: Vec<(Option<String>, Vec<String>)> = s
+                    .iter()
+                    .filter_map(|c| match c {
+                        Cmd::Position { fen, moves } => Some((fen.clone(), moves.clone())),
+                        _ => None,
+                    })
+                    .collect();
+                let prev = if earlier.is_empty() {
+                    None
+                } else if rng.gen_bool(0.7) {
+                    earlier.last().cloned()
+                } else {
+                    Some(earlier[rng.gen_range(0..earlier.len())].clone())
+                };
                 let (fen, moves, last) = match prev {
                     Some((pf, pm)) if rng.gen_bool(0.35) => {
                         let base = match &pf {
@@ -733,6 +745,53 @@ pub fn ready_session(rng: &mut gen::R) -> Vec<Cmd> {
             s.push(Cmd::Position { fen: Some(roots.choose(rng).unwrap().to_string()), moves: vec![] });
         }
         s.push(Cmd::ReadyDuringSearch { ms: 1500 });
+    }
+    s.push(Cmd::Quit);
+    s
+}
+
+/// "startpos moves a b", then another base ("fen F"), then "startpos moves a b [c d]": whatever the engine remembers
+/// about the earlier move list, the position must be the one the last command describes
+pub fn detour_session(rng: &mut gen::R, corpus: &[Pos]) -> Vec<Cmd> {
+    let mut s = vec![Cmd::Uci];
+    let n1 = rng.gen_range(0..10);
+    let (game, _) = gen::play(rng, &Pos::start(), n1);
+    let first: Vec<String> = game.iter().map(|(_, m)| Pos::lan(m)).collect();
+    s.push(Cmd::Position { fen: None, moves: first.clone() });
+    if rng.gen_bool(0.5) {
+        s.push(Cmd::State);
+    }
+    if rng.gen_bool(0.4) {
+        s.push(Cmd::Go { spec: "depth 1".into(), wait: true });
+    }
+    let f = random_fen_root(rng, corpus);
+    let n2 = rng.gen_range(0..4);
+    let (g2, _) = gen::play(rng, &f, n2);
+    s.push(Cmd::Position { fen: Some(f.fen()), moves: g2.iter().map(|(_, m)| Pos::lan(m)).collect() });
+    if rng.gen_bool(0.5) {
+        s.push(Cmd::State);
+    }
+    // back to the first game: same list, a continuation, or a takeback
+    let mut p = Pos::start();
+    let keep = if rng.gen_bool(0.7) || first.is_empty() { first.len() } else { rng.gen_range(0..first.len()) };
+    let mut ms: Vec<String> = vec![];
+    for m in first.iter().take(keep) {
+        let om = p.legal_moves().into_iter().find(|o| Pos::lan(o) == *m).unwrap();
+        p = p.make(&om);
+        ms.push(m.clone());
+    }
+    if keep == first.len() {
+        let n3 = rng.gen_range(0..4);
+        let (g3, _) = gen::play(rng, &p.clone(), n3);
+        for (_, m) in g3.iter() {
+            ms.push(Pos::lan(m));
+            p = p.make(m);
+        }
+    }
+    s.push(Cmd::Position { fen: None, moves: ms });
+    s.push(Cmd::State);
+    if !p.legal_moves().is_empty() && tame(&p) {
+        s.push(Cmd::Go { spec: format!("depth {}", rng.gen_range(1..=2)), wait: true });
     }
     s.push(Cmd::Quit);
     s
@@ -902,6 +961,9 @@ pub fn run(ctx: &Ctx, rep: &mut Report) {
         } else if k % 12 == 6 {
             rep.count("stale_timer_sessions", 1);
             stale_timer_session(&mut rng)
+        } else if k % 12 == 9 {
+            rep.count("detour_sessions", 1);
+            detour_session(&mut rng, &corpus)
         } else {
             make_session(&mut rng, &corpus)
         };
